@@ -18,6 +18,7 @@ THEOREMS = [
     "C14.resolve_spec_global", "C14.synced_fresh", "C14.registered_class_described", "C14.synced_pending_uncoloured",
     "C14.no_error_global", "C14.no_error_pal", "C14.setGlobal_reentrant_raises", "C14.sub_palette_fresh",
     "C14.single_conf_same", "C14.non_global_registration_inert", "C14.synced_follow_current_global",
+    "C14.nocolor_palette_registers", "C14.kept_palette_own_configuration",
 ]
 
 
@@ -87,6 +88,9 @@ def translate(repo):
     names = mod._ColorConfColorDescr._COLORS_NAMES
     modifiers = mod._ColorConfColorDescr._MODIFIERS
     builtin = mod.ColorsConfig.BUILT_IN_CONFIG
+    gp_accessors = dict(mod.GlobalPalette._LOCAL_SYNTAX)
+    if not all(isinstance(a, str) and isinstance(i, str) and a.isascii() and i.isascii() for a, i in gp_accessors.items()):
+        raise ValueError("GlobalPalette._LOCAL_SYNTAX is not a str -> str table")
     dflt = mod.ColorsConfig.DFLT_SYNTAX_ID
     if not (isinstance(colors, dict) and all(isinstance(k, str) and isinstance(v, str) for k, v in colors.items())):
         raise ValueError("_COLORS is not a str -> str table")
@@ -140,6 +144,11 @@ def translate(repo):
         "",
         "/-- `ColorsConfig.DFLT_SYNTAX_ID` -/",
         "def dfltId : List Char := %s" % _chars(dflt),
+        "",
+        "/-- accessors of `GlobalPalette` (what `ColorsConfig.get_palette()` returns): accessor -> syntax id -/",
+        "def gpAccessors : List (List Char × List Char) := [",
+        ",\n".join("  (%s, %s)" % (_chars(a), _chars(i)) for a, i in gp_accessors.items()),
+        "]",
         "",
         "/-- `ColorsConfig.BUILT_IN_CONFIG` -/",
         "def builtin : Cfg := %s" % _cfg(builtin),
@@ -247,7 +256,7 @@ def _report(col, text):
 # ------------------------------------------------------------------ real code
 def impl(case):
     col = _color()
-    uses_global = any(l.split()[0] in ("glob", "syn", "sget") for l in case["lines"] if l) or \
+    uses_global = any(l.split()[0] in ("glob", "syn", "sget", "gpal") for l in case["lines"] if l) or \
         sum(1 for l in case["lines"] if l.startswith("new ")) > 1
     if not uses_global:
         return _impl(col, case, None)
@@ -278,6 +287,7 @@ def _accessors(p, check_get_color):
 def _impl(col, case, synced):
     conf, dead, classes = None, False, []
     confs, globbed = [], False           # the configurations of the case; whether one of them was made the global one
+    kept = []                            # results of conf.get_palette() the case holds on to
     compounds = set()
     out = []
     for line in case["lines"]:
@@ -350,6 +360,18 @@ def _impl(col, case, synced):
                     out.append("bad-op")
                     continue
                 out.append(_accessors(classes[k](conf, nc).get_sub_palette(classes[j]), True))
+            elif op == "gpal":
+                if conf is None:
+                    out.append("bad-op")
+                    continue
+                kept.append(conf.get_palette())
+                out.append(_accessors(kept[-1], False))
+            elif op == "gread":
+                if not args[0].isdigit() or int(args[0]) >= len(kept):
+                    out.append("bad-op")
+                    continue
+                pal = kept[int(args[0])]
+                out.append(_accessors(pal, False) + "|" + _prefix(pal[dec_str(args[1])]("t")))
             elif op == "glob":
                 if conf is None or synced is None:
                     out.append("bad-op")
@@ -614,6 +636,7 @@ def _oracle_walk(case, replies):
     col = _color()
     spec, classes = None, []      # spec: the configuration the lines act on
     specs, gspec, synced = [], None, []    # all configurations of the case; the current global one; synced classes
+    kept = []                              # (configuration, accessors at the time) of kept get_palette() results
 
     def register(k, sp):
         """class k (parents first) becomes a component of configuration sp, once"""
@@ -681,6 +704,36 @@ def _oracle_walk(case, replies):
             msg = check_palette(n, k, rep, nc, "palette", spec)
             if msg:
                 return msg
+            continue
+        elif op == "gpal":
+            # conf.get_palette(): a palette of THIS configuration; the object is kept by the case
+            if not rep.startswith("ok"):
+                return "raises: line %d %r answers %s" % (n, line, rep)
+            want = {enc_str(a): spec.render(i) for a, i in col.GlobalPalette._LOCAL_SYNTAX.items()}
+            kept.append((spec, want))
+            got = dict(p.split("=") for p in rep[3:].split(";"))
+            for a, w in want.items():
+                if w is not None and got.get(a) != w:
+                    return "get_palette: line %d accessor %s renders %s, the configuration's descriptions give %s" % (n, dec_str(a), got.get(a), w)
+            continue
+        elif op == "gread":
+            # a kept get_palette() result belongs to the configuration it was obtained from, whichever configuration is
+            # the global one now: its accessors are what they were, palette[id] is get_color(id) of THAT configuration now
+            if not rep.startswith("ok"):
+                return "raises: line %d %r answers %s" % (n, line, rep)
+            ksp, want = kept[int(args[0])]
+            accs, _, item = rep[3:].partition("|")
+            got = dict(p.split("=") for p in accs.split(";"))
+            for a, w in want.items():
+                if w is not None and got.get(a) != w:
+                    return "kept-palette: line %d accessor %s of the palette obtained from configuration %d renders %s, it was %s" % (
+                        n, dec_str(a), specs.index(ksp), got.get(a), w)
+                if ksp.no_color and got.get(a) != "-":
+                    return "nocolor: line %d kept palette of a no_color configuration has an effect: %s" % (n, got.get(a))
+            w = ksp.render(dec_str(args[1]))
+            if w is not None and item != w:
+                return "kept-palette: line %d palette[%r] of the palette obtained from configuration %d renders %s, that configuration gives %s" % (
+                    n, dec_str(args[1]), specs.index(ksp), item, w)
             continue
         elif op == "sub":
             # a sub-palette handed out by a compound palette obtained from the configuration NOW is a palette of that
@@ -1055,6 +1108,15 @@ def corpus():
              "new 0 " + cfg_str({"DEMO.X": "BLUE:bold"}), "use 0", "glob", "syn 0", "use 1", "glob", "sget 0",
              "use 0", "add " + cfg_str({"FRESH": "GREEN"}), "sget 0", "pal 0 0", "sget 0", "use 1", "get " + enc_str("DEMO.X")],
             "global-replaced")
+    # the no-colour palette of a class is one object for all configurations; each configuration still gets the component
+    yield c(["cls 0 none %s=%s %s" % (enc_str("acc"), enc_str("C.ACCENT"), cfg_str({"C.ACCENT": "RED:bold"})),
+             "new 0 " + cfg_str({"U": "C.ACCENT:underline"}), "new 0 " + cfg_str({"V": "C.ACCENT:/BLUE"}),
+             "use 0", "pal 0 1", "use 1", "pal 0 1"] + g("V", "C.ACCENT") + ["rep", "use 0"] + g("U", "C.ACCENT") + ["rep"], "nocolor-route")
+    # a kept conf.get_palette() belongs to its configuration whatever becomes the global one later
+    yield c(["new 0 " + cfg_str({"NAME": "RED"}), "new 1 " + cfg_str({"NAME": "GREEN"}), "new 0 " + cfg_str({"NAME": "BLUE:bold"}),
+             "use 0", "glob", "gpal", "use 1", "glob", "gpal", "use 2", "glob", "gread 0 " + enc_str("NAME"), "gread 1 " + enc_str("NAME"),
+             "use 0", "add " + cfg_str({"A.Y": "NAME:underline"}), "gread 0 " + enc_str("A.Y"), "glob", "gread 1 " + enc_str("WARN")],
+            "kept-global-palette")
     # ids that differ from colour / modifier names by case or by a character are ordinary ids: references, not colours
     yield c(["new 0 " + cfg_str({"red": "(5,0,0)", "Magenta": "red:underline", "APP.ERROR": "red:bold", "APP.MARK": "Magenta",
                                  "APP.SHADOW": "black:bold", "APP.NOTE": "APP.ERROR:-/g5", "APP.B": "Bold:RED", "APP.G": "g24"})] +
@@ -1096,6 +1158,8 @@ def gen_cases(rng, tier):
     yield from _gen_palettes(rng, tier)
     yield from _gen_global(rng, tier)
     yield from _gen_multi(rng, tier)
+    yield from _gen_nc_route(rng, tier)
+    yield from _gen_kept(rng, tier)
     yield from _gen_long(rng, tier)
     yield from _gen_malformed(rng, tier)
 
@@ -1338,6 +1402,83 @@ def _gen_multi(rng, tier):
         yield {"lines": lines, "meta": {"kind": "multi-conf", "items": len(items), "depth": depth}}
 
 
+def _gen_nc_route(rng, tier):
+    """palette classes register their defaults through P(conf, no_color=…): the no-colour palette is one object per class
+    for all configurations, yet every configuration must get the component; several configurations, both orders with
+    the coloured creation"""
+    for _ in range(200 if tier == "quick" else 4000):
+        nconf = rng.choice([2, 2, 3])
+        ncls = rng.randint(1, 3)
+        lines, provided = [], []
+        for k in range(ncls):
+            ids = ["C%d.ACCENT" % k, "C%d.BASE" % k][:rng.randint(1, 2)]
+            dflt = {}
+            for j, sid in enumerate(ids):
+                dflt[sid] = _gen_descr(rng, ids[j - 1] if j and rng.random() < 0.6 else None)
+            provided += ids
+            parents = [rng.randrange(k)] if k and rng.random() < 0.3 else []
+            lines.append("cls %d%s %s %s=%s %s" % (k, "+" if rng.random() < 0.2 else "", ",".join(map(str, parents)) or "none",
+                                                   enc_str("acc"), enc_str(ids[0]), cfg_str(dflt)))
+        users = []
+        for c in range(nconf):
+            own = {}
+            for u in range(rng.randint(1, 3)):
+                own["APP%d.U%d" % (c, u)] = _gen_descr(rng, rng.choice(provided + list(own)))
+                users.append("APP%d.U%d" % (c, u))
+            lines.append("new %d %s" % (1 if rng.random() < 0.08 else 0, cfg_str(own)))
+        gets = ["get " + enc_str(p) for p in provided + users]
+        visits = [(c, k) for c in range(nconf) for k in range(ncls)]
+        rng.shuffle(visits)
+        for c, k in visits:
+            nc = 1 if rng.random() < 0.6 else 0
+            lines += ["use %d" % c, "pal %d %d" % (k, nc)]
+            if rng.random() < 0.3:
+                lines.append("pal %d %d" % (k, 1 - nc))
+            lines.extend(rng.sample(gets, min(3, len(gets))))
+        for c in range(nconf):
+            lines += ["use %d" % c] + gets + ["rep"]
+        yield {"lines": lines, "meta": {"kind": "nocolor-route", "items": len(provided), "depth": 2}}
+
+
+def _gen_kept(rng, tier):
+    """results of conf.get_palette() kept while the global configuration is swapped (conf global -> another -> back),
+    coloured and no_color configurations, registrations in between"""
+    std = ["TEXT", "NAME", "KEYWORD", "OK", "WARN", "ERROR"]
+    for _ in range(200 if tier == "quick" else 4000):
+        nconf = rng.choice([2, 2, 3])
+        lines = []
+        for c in range(nconf):
+            own = {sid: _gen_descr(rng, None) for sid in rng.sample(std, rng.randint(1, 5))}
+            if rng.random() < 0.5:
+                own["EXTRA.%d" % c] = _gen_descr(rng, rng.choice(std + ["LATER.X"]))
+            lines.append("new %d %s" % (1 if rng.random() < 0.25 else 0, cfg_str(own)))
+        probes = std + ["EXTRA.0", "EXTRA.1", "LATER.X", "?unknown?"]
+        nkept = 0
+
+        def read_all():
+            for h in range(nkept):
+                lines.append("gread %d %s" % (h, enc_str(rng.choice(probes))))
+
+        for step in range(rng.randint(4, 9)):
+            c = rng.randrange(nconf)
+            r = rng.random()
+            if r < 0.35:
+                lines += ["use %d" % c, "glob"]
+                if rng.random() < 0.6:
+                    lines.append("gpal")          # obtained while this configuration is the global one
+                    nkept += 1
+            elif r < 0.55:
+                lines += ["use %d" % c, "gpal"]   # obtained from whatever configuration, global or not
+                nkept += 1
+            elif r < 0.8:
+                lines += ["use %d" % c, "add " + cfg_str({rng.choice(["LATER.X", "NEW%d" % step, "EXTRA.%d" % c]): _gen_descr(rng, None)})]
+            else:
+                lines += ["use %d" % c] + ["get " + enc_str(p) for p in rng.sample(probes, 2)]
+            read_all()
+        read_all()
+        yield {"lines": lines, "meta": {"kind": "kept-global-palette", "items": nconf, "depth": 1}}
+
+
 def _long_chain(n, rng):
     """[(id, description)]: L00000 -> L00001 -> … -> L<n-1> (the root); the leaf sorts first, so the first walk of the
     resolution loop is the longest one; a few links contribute colours / modifiers of their own"""
@@ -1498,7 +1639,7 @@ def shrink(case):
 def nontrivial(case, replies):
     """at least one later registration and one coloured answer of an id that has a parent"""
     lines = case["lines"]
-    if not any(l.startswith(("add ", "reg ", "pal ", "glob", "syn ")) for l in lines):
+    if not any(l.startswith(("add ", "reg ", "pal ", "glob", "syn ", "gpal")) for l in lines):
         return False
     if any(r.startswith("err") for r in replies):
         return True
@@ -1530,6 +1671,11 @@ def tags(case, replies):
         yield "blanks-in-description"
     if any(l.startswith("sub ") for l in case["lines"]):
         yield "sub-palette"
+    if any(l.startswith("gread ") for l in case["lines"]):
+        yield "kept-get_palette-read" + (":after-global-swap" if case["lines"].count("glob") >= 2 else "")
+    ncpal = [l for l in case["lines"] if l.startswith("pal ") and l.endswith(" 1")]
+    if ncpal and sum(1 for l in case["lines"] if l.startswith("new ")) > 1:
+        yield "nocolor-palette-registration:several-configurations"
     if any(":-" in d or "-/" in d or "/-" in d for d in descrs):
         yield "dash-in-description"
     # falsy colour values (int 0, 'g0', (0,0,0)) in a description that also has a parent
@@ -1601,7 +1747,8 @@ RULE = ("acyclic description sets of 1-6 (thorough: 2-8) ids, chains of depth <=
         "registration; shadowed ids; palette classes with parent palettes; the configuration made the global one with synced "
         "palettes created before and after, batches of pending items only under a coloured default syntax; 2-3 configurations "
         "taking turns as the global one with registrations into former global ones; distinct palette "
-        "classes sharing one name; compound palettes handing out sub-palettes before/after registrations and under several "
+        "classes sharing one name; palette classes registered through no_color palettes in several configurations; results of "
+        "get_palette() kept across swaps of the global configuration; compound palettes handing out sub-palettes before/after registrations and under several "
         "configurations; the blank spelling of descriptions (blanks around colour tokens, rgb components, listed modifiers); "
         "reference chains of 10-1500 (thorough 3000) links pending at once; make_report at the end of "
         "every history; malformed/unusual descriptions and cycles. "
@@ -1638,7 +1785,10 @@ LEVEL_TEXT = ("Kernel-checked for every history (any split of the descriptions b
               "several configurations taking turns as the global one the synced palettes show the configuration that is the global "
               "one NOW, and a registration into any other configuration (a former global one included) touches neither them nor "
               "the global index nor other configurations [synced_follow_current_global, non_global_registration_inert; "
-              "single_conf_same ties the one-configuration theorems to what the driver executes]. "
+              "single_conf_same ties the one-configuration theorems to what the driver executes]; a no_color palette registers its "
+              "class in the configuration it is called with, every time [nocolor_palette_registers]; an operation leaves every "
+              "configuration it is not aimed at untouched, so a kept conf.get_palette() answers from its own configuration "
+              "whatever becomes the global one [kept_palette_own_configuration]. "
               "No exception and no fuel exhaustion on an explicit decidable domain: valid descriptions with an acyclic final set "
               "for histories without palettes [no_error, no_error_add, parsed_colors_accepted]; with palette classes, the global "
               "configuration and synced palettes when the class table is well-founded, all offered descriptions are valid with an "
